@@ -3,3 +3,4 @@ import AJ.Model.Graph
 import AJ.Model.Surgery
 import AJ.Model.Build
 import AJ.Model.Dot
+import AJ.Spec
